@@ -56,6 +56,8 @@ def zeros(shape, dtype=tn.float64, device=None):
     """
     if isinstance(shape, list):
         d = len(shape)
+        if any(isinstance(s, tuple) and len(s) != 2 for s in shape):
+            raise InvalidArguments('The shape of a TT matrix is a list of pairs.')
         if isinstance(shape[0], tuple):
             # we create a TT-matrix
             cores = [tn.zeros([1, shape[i][0], shape[i][1], 1],
@@ -131,6 +133,8 @@ def ones(shape, dtype=tn.float64, device=None):
         if d == 0:
             return torchtt._tt_base.TT(None)
         else:
+            if any(isinstance(s, tuple) and len(s) != 2 for s in shape):
+                raise InvalidArguments('The shape of a TT matrix is a list of pairs.')
             if isinstance(shape[0], tuple):
                 # we create a TT-matrix
                 cores = [tn.ones([1, shape[i][0], shape[i][1], 1],
@@ -291,6 +295,8 @@ def random(N, R, dtype=tn.float64, device=None):
         R = [1]+[R]*(len(N)-1)+[1]
     elif len(N)+1 != len(R) or R[0] != 1 or R[-1] != 1 or len(N) == 0:
         raise InvalidArguments('Check if N and R are right.')
+    if any(isinstance(s, tuple) and len(s) != 2 for s in N):
+        raise InvalidArguments('Check if N and R are right.')
 
     cores = []
 
@@ -320,6 +326,8 @@ def randn(N, R, var=1.0, dtype=tn.float64, device=None):
     """
 
     d = len(N)
+    if len(R) != d+1 or R[0] != 1 or R[-1] != 1 or any(isinstance(s, tuple) and len(s) != 2 for s in N):
+        raise InvalidArguments('Check if N and R are right.')
     v1 = var / np.prod(R)
     v = v1**(1/d)
     cores = [None] * d
@@ -348,6 +356,8 @@ def reshape(tens, shape, eps=1e-16, rmax=sys.maxsize):
         torchtt.TT: the resulting tensor.
     """
 
+    if any((not isinstance(n, (int, np.integer))) or n < 1 for s in shape for n in (s if isinstance(s, tuple) else (s,))):
+        raise ShapeMismatch('The mode sizes must be positive integers. Check the given shape.')
     dfin = len(shape)
     cores, R = rl_orthogonal(tens.cores, tens.R, tens.is_ttm)
     if tens.is_ttm:
@@ -479,6 +489,8 @@ def meshgrid(vectors):
         list[TT]: the resulting meshgrid.
     """
 
+    if any(len(v.shape) != 1 for v in vectors):
+        raise InvalidArguments('The inputs must be vectors (1d tensors).')
     Xs = []
     dtype = vectors[0].dtype
     for i in range(len(vectors)):
@@ -550,6 +562,8 @@ def dot(a, b, axis=None):
         if len(a.N) < len(b.N):
             raise ShapeMismatch(
                 'Number of the modes of the first tensor must be equal with the second.')
+        if len(set(axis)) != len(axis):
+            raise InvalidArguments('The axis list must not contain an index twice.')
         if [a.N[i] for i in axis] != b.N:
             raise ShapeMismatch(
                 'The modes of the first tensor selected by axis must be equal with the modes of the second.')
@@ -920,7 +934,7 @@ def cat(tensors, dim=0):
     """
 
     if (len(tensors) == 0):
-        return None
+        raise InvalidArguments('At least one tensor is needed.')
 
     if tensors[0].is_ttm:
         raise InvalidArguments("Not implemented for tensor matrices.")
